@@ -70,9 +70,18 @@ NEARNUM = ["1_0", "2024_01", "10_20.5", "nan", "NaN", "inf", "-inf", "Infinity",
 
 
 def dom_string(rng, cls: str | None = None) -> str:
-    cls = cls or rng.choice(STR_CLASSES)
+    # boundary sizes: one string in forty is long (well beyond any line width, padding column or buffer a writer might assume)
+    cls = cls or ("long" if rng.random() < 0.025 else rng.choice(STR_CLASSES))
     while True:
-        if cls == "single":
+        if cls == "long":
+            m = rng.randrange(3)
+            if m == 0:
+                s = " ".join(word(rng, 1, 9) for _ in range(rng.randrange(20, 60)))
+            elif m == 1:
+                s = "".join(word(rng, 3, 9) for _ in range(rng.randrange(18, 40)))           # one unbroken word
+            else:
+                s = rng.choice(["C:/", "/", "../"]) + "/".join(word(rng, 2, 9) for _ in range(rng.randrange(15, 40)))
+        elif cls == "single":
             s = word(rng, 1, 10)
         elif cls == "multi":
             s = " ".join(word(rng, 1, 5) for _ in range(rng.randrange(2, 4)))
@@ -181,6 +190,8 @@ def dom_tree(rng, max_nodes=30, max_depth=4, int_keys=0.15, list_p=0.25, leaf=do
         n = rng.randrange(0, 6)
         if rng.random() < 0.1:
             n = rng.randrange(9, 14)  # more than items_per_line
+        elif rng.random() < 0.02:
+            n = rng.randrange(40, 130)  # a long list (the node budget applies)
         for _ in range(n):
             if budget[0] <= 0:
                 break
